@@ -1,0 +1,213 @@
+// Copyright Amazon.com, Inc. or its affiliates. All Rights Reserved.
+// SPDX-License-Identifier: Apache-2.0
+
+//! Verification hooks, only compiled with the `verif-hooks` feature (off by default).
+//!
+//! Nothing in this module changes a decision the reader or the writer makes. It offers:
+//! - a per-thread *point handler*, called before and after every access to the shared memory
+//!   segment (and between the file operations of the writer start-up). Without a handler installed
+//!   a point is a no-op.
+//! - `atomic`, a drop-in for the subset of `std::sync::atomic` used by this crate. Every operation
+//!   reports a point and then performs the real std operation with the ordering of the call site.
+//! - `WPtr` / `RPtr`, drop-ins for the raw pointers to the ClockErrorBound section. They copy the
+//!   record one 64-bit word at a time (relaxed atomic accesses) with a point before each word.
+
+use std::cell::RefCell;
+
+use crate::{ClockErrorBound, ClockStatus};
+
+/// Number of 64-bit words the ClockErrorBound record is copied as.
+pub const CEB_WORDS: usize = 7;
+
+/// One observable step of the code under test.
+#[derive(Debug, Clone, Copy)]
+pub struct Point {
+    /// Stable name of the kind of step (e.g. "load.pre", "store.post", "wword.pre", "wipe.sync").
+    pub site: &'static str,
+    /// Address of the memory location accessed, 0 if not applicable.
+    pub addr: usize,
+    /// Value loaded or stored, if known at this point.
+    pub value: u64,
+    /// Index of the record word accessed, for the word copies.
+    pub word: usize,
+}
+
+type Handler = Box<dyn FnMut(&Point)>;
+
+thread_local! {
+    static HANDLER: RefCell<Option<Handler>> = const { RefCell::new(None) };
+}
+
+/// Install (or remove) the point handler of the calling thread.
+pub fn set_handler(handler: Option<Handler>) {
+    HANDLER.with(|h| *h.borrow_mut() = handler);
+}
+
+/// Report a point to the handler of the calling thread.
+///
+/// The handler is taken out while it runs: points reached from within the handler are ignored, and
+/// a handler that unwinds is not re-installed.
+#[inline]
+pub fn point(site: &'static str, addr: usize, value: u64, word: usize) {
+    let taken = HANDLER.with(|h| h.borrow_mut().take());
+    if let Some(mut handler) = taken {
+        handler(&Point {
+            site,
+            addr,
+            value,
+            word,
+        });
+        HANDLER.with(|h| {
+            let mut slot = h.borrow_mut();
+            if slot.is_none() {
+                *slot = Some(handler);
+            }
+        });
+    }
+}
+
+/// Instrumented stand-in for `std::sync::atomic`.
+pub mod atomic {
+    use super::point;
+    pub use std::sync::atomic::Ordering;
+
+    macro_rules! instrumented_atomic {
+        ($name:ident, $int:ty) => {
+            #[repr(transparent)]
+            #[derive(Debug)]
+            pub struct $name(std::sync::atomic::$name);
+
+            impl $name {
+                pub const fn new(v: $int) -> Self {
+                    Self(std::sync::atomic::$name::new(v))
+                }
+
+                #[inline]
+                pub fn load(&self, order: Ordering) -> $int {
+                    let addr = self as *const Self as usize;
+                    point("load.pre", addr, 0, 0);
+                    let v = self.0.load(order);
+                    point("load.post", addr, v as u64, 0);
+                    v
+                }
+
+                #[inline]
+                pub fn store(&self, v: $int, order: Ordering) {
+                    let addr = self as *const Self as usize;
+                    point("store.pre", addr, v as u64, 0);
+                    self.0.store(v, order);
+                    point("store.post", addr, v as u64, 0);
+                }
+
+                pub fn into_inner(self) -> $int {
+                    self.0.into_inner()
+                }
+            }
+        };
+    }
+
+    instrumented_atomic!(AtomicU16, u16);
+    instrumented_atomic!(AtomicU32, u32);
+
+    #[inline]
+    pub fn fence(order: Ordering) {
+        point("fence.pre", 0, 0, 0);
+        std::sync::atomic::fence(order);
+        point("fence.post", 0, 0, 0);
+    }
+}
+
+fn ceb_to_words(ceb: &ClockErrorBound) -> [u64; CEB_WORDS] {
+    let mut w5 = [0u8; 8];
+    w5[..4].copy_from_slice(&ceb.max_drift_ppb.to_ne_bytes());
+    w5[4..].copy_from_slice(&ceb.reserved1.to_ne_bytes());
+    let mut w6 = [0u8; 8];
+    w6[..4].copy_from_slice(&(ceb.clock_status as i32).to_ne_bytes());
+    [
+        ceb.as_of.tv_sec as u64,
+        ceb.as_of.tv_nsec as u64,
+        ceb.void_after.tv_sec as u64,
+        ceb.void_after.tv_nsec as u64,
+        ceb.bound_nsec as u64,
+        u64::from_ne_bytes(w5),
+        u64::from_ne_bytes(w6),
+    ]
+}
+
+fn words_to_ceb(w: &[u64; CEB_WORDS]) -> ClockErrorBound {
+    let w5 = w[5].to_ne_bytes();
+    let w6 = w[6].to_ne_bytes();
+    let clock_status = match i32::from_ne_bytes([w6[0], w6[1], w6[2], w6[3]]) {
+        0 => ClockStatus::Unknown,
+        1 => ClockStatus::Synchronized,
+        2 => ClockStatus::FreeRunning,
+        other => panic!("verif: invalid ClockStatus discriminant {} in segment", other),
+    };
+    ClockErrorBound {
+        as_of: libc::timespec {
+            tv_sec: w[0] as i64,
+            tv_nsec: w[1] as i64,
+        },
+        void_after: libc::timespec {
+            tv_sec: w[2] as i64,
+            tv_nsec: w[3] as i64,
+        },
+        bound_nsec: w[4] as i64,
+        max_drift_ppb: u32::from_ne_bytes([w5[0], w5[1], w5[2], w5[3]]),
+        reserved1: u32::from_ne_bytes([w5[4], w5[5], w5[6], w5[7]]),
+        clock_status,
+    }
+}
+
+/// Stand-in for the writer's `*mut ClockErrorBound`.
+#[derive(Debug, Clone, Copy)]
+pub struct WPtr(pub *mut ClockErrorBound);
+
+impl WPtr {
+    /// Same contract as `<*mut ClockErrorBound>::write`.
+    ///
+    /// # Safety
+    /// The pointer must be valid for a write of a ClockErrorBound and 8 bytes aligned.
+    pub unsafe fn write(&self, ceb: ClockErrorBound) {
+        let words = ceb_to_words(&ceb);
+        let base = self.0 as *const std::sync::atomic::AtomicU64;
+        for (i, word) in words.iter().enumerate() {
+            let cell = &*base.add(i);
+            point("wword.pre", base.add(i) as usize, *word, i);
+            cell.store(*word, std::sync::atomic::Ordering::Relaxed);
+            point("wword.post", base.add(i) as usize, *word, i);
+        }
+    }
+}
+
+/// Stand-in for the reader's `*const ClockErrorBound`.
+#[derive(Debug, Clone, Copy)]
+pub struct RPtr(pub *const ClockErrorBound);
+
+impl std::ops::Deref for RPtr {
+    type Target = ClockErrorBound;
+
+    /// Plain dereference, as the raw pointer allows (used by the crate's own unit tests).
+    fn deref(&self) -> &ClockErrorBound {
+        // SAFETY: same requirement as dereferencing the raw pointer this type stands in for.
+        unsafe { &*self.0 }
+    }
+}
+
+impl RPtr {
+    /// Same contract as `<*const ClockErrorBound>::read_volatile`.
+    ///
+    /// # Safety
+    /// The pointer must be valid for a read of a ClockErrorBound and 8 bytes aligned.
+    pub unsafe fn read_volatile(&self) -> ClockErrorBound {
+        let mut words = [0u64; CEB_WORDS];
+        let base = self.0 as *const std::sync::atomic::AtomicU64;
+        for (i, word) in words.iter_mut().enumerate() {
+            let cell = &*base.add(i);
+            point("rword.pre", base.add(i) as usize, 0, i);
+            *word = cell.load(std::sync::atomic::Ordering::Relaxed);
+            point("rword.post", base.add(i) as usize, *word, i);
+        }
+        words_to_ceb(&words)
+    }
+}
